@@ -244,6 +244,24 @@ def sweeps(tier, rng):
         calls = []
         for _ in range(k or rng_.randint(1, 3)): calls += gen_contour(rng_, **kw)
         return calls
+    def svg_outline(rng_):
+        calls = []
+        for _ in range(rng_.randint(1, 2)):
+            pts = [(float(rng_.randint(-200, 200)), float(rng_.randint(-200, 200)))]
+            calls.append(("moveTo", (pts[0],)))
+            for _s in range(rng_.randint(2, 5)):
+                prev = pts[-2:] if len(pts) > 1 else pts[-1:]
+                x = rng_.choice([q[0] for q in prev] + [float(rng_.randint(-200, 200))])
+                y = rng_.choice([q[1] for q in prev] + [float(rng_.randint(-200, 200))])
+                end = (x, y)
+                offs = lambda k: tuple((float(rng_.randint(-200, 200)), float(rng_.randint(-200, 200))) for _o in range(k))
+                kind = rng_.choice(["lineTo", "lineTo", "qCurveTo", "qCurveTo", "curveTo"])
+                if kind == "lineTo": calls.append(("lineTo", (end,)))
+                elif kind == "qCurveTo": calls.append(("qCurveTo", offs(rng_.randint(1, 3)) + (end,)))
+                else: calls.append(("curveTo", offs(2) + (end,)))
+                pts.append(end)
+            calls.append((rng_.choice(["closePath", "endPath"]), ()))
+        return calls
     def run_adapters():
         for i in range(n):
             calls = glyph(rng)
@@ -260,6 +278,15 @@ def sweeps(tier, rng):
                     if G.canon(rsv.value) != G.canon(fcalls): bad = "SVG path text %r reads back as %r, drawn %r" % (svp.getCommands(), rsv.value, fcalls)
                 except Exception as e:
                     bad = "SVGPathPen / parse_path raised %r on %r" % (e, calls)
+            # the same with a directed outline: every segment's end point shares x and/or y with one of the two points before it, which is
+            # where SVG's H/V shorthands and duplicate-point suppression (state carried from segment to segment) are decided
+            if bad is None:
+                dc = svg_outline(rng)
+                try:
+                    svp = SVGPathPen(None); _record(dc, svp); rsv = RecordingPen(); parse_path(svp.getCommands(), rsv)
+                    if G.canon(rsv.value) != G.canon(dc): bad = "SVG path text %r reads back as %r, drawn %r" % (svp.getCommands(), rsv.value, dc)
+                except Exception as e:
+                    bad = "SVGPathPen / parse_path raised %r on %r" % (e, dc)
             # segment -> point -> segment
             r3 = RecordingPen(); sp = SegmentToPointPen(PointToSegmentPen(r3, outputImpliedClosingLine=rng.chance(50)))
             try:
